@@ -203,3 +203,68 @@ pub fn blank_line(cols: usize) -> Line {
 pub fn is_blank_with(c: &Cell, pen: &Pen) -> bool {
     c.char() == ' ' && c.pen() == pen
 }
+
+// ------------------------------------------------------------------ stub for std's ptr_rotate
+//
+// `<[T]>::rotate_left/right(n)` with a symbolic n ends in core::slice::rotate::ptr_rotate, whose
+// block-swap / memmove algorithm with symbolic lengths does not finish in CBMC.  Harnesses that
+// reach it replace it (kani::stub) by this element-wise version with the same contract:
+// the `left + right` elements starting at `mid - left` are rotated left by `left`.
+// The stub itself is decided against that contract by t_rotate_stub below.
+pub const ROT_MAX: usize = 8;
+
+#[cfg(kani)]
+pub unsafe fn stub_ptr_rotate<T>(left: usize, mid: *mut T, right: usize) {
+    use std::mem::MaybeUninit;
+    let len = left + right;
+    assert!(len <= ROT_MAX, "[KV] rotate stub: slice longer than the stub's buffer");
+    if left == 0 || right == 0 {
+        return;
+    }
+    let start = mid.sub(left);
+    let mut tmp: [MaybeUninit<T>; ROT_MAX] = [const { MaybeUninit::uninit() }; ROT_MAX];
+    let mut i = 0;
+    while i < len {
+        tmp[i] = MaybeUninit::new(std::ptr::read(start.add(i)));
+        i += 1;
+    }
+    let mut j = 0;
+    while j < len {
+        let mut src = j + left;
+        if src >= len {
+            src -= len;
+        }
+        std::ptr::write(start.add(j), tmp[src].assume_init_read());
+        j += 1;
+    }
+}
+
+/// the stub against its contract: out[i] == in[(i + left) % len], through the public
+/// rotate_left / rotate_right entry points
+#[cfg(kani)]
+pub(crate) fn t_rotate_stub(len: usize) {
+    let mut a = [0u32; ROT_MAX];
+    let mut b = [0u32; ROT_MAX];
+    let mut k = 0;
+    while k < len {
+        a[k] = any_u32();
+        b[k] = a[k];
+        k += 1;
+    }
+    let n = any_usize();
+    assume(n <= len);
+    let i = any_usize();
+    assume(i < len);
+    if any_bool() {
+        b[..len].rotate_left(n);
+        assert!(b[i] == a[(i + n) % len], "[KV] rotate stub meets the contract of rotate_left");
+    } else {
+        b[..len].rotate_right(n);
+        assert!(b[(i + n) % len] == a[i], "[KV] rotate stub meets the contract of rotate_right");
+    }
+    crate::kv_end!();
+}
+
+#[cfg(not(kani))]
+pub(crate) fn t_rotate_stub(_len: usize) {}
+include!("kv_gen.rs");
